@@ -284,7 +284,7 @@ Theorem C07_registry_redirect : forall W o roots g s t pkg req exp,
                  lookup exp (Jsr.vi_exports vi) = Some t /\ Jsr.matches W req ver = true.
 Proof.
   intros W o roots g s t pkg req exp Hwf Hb Hl Hc.
-  pose proof (proj2 (proj2 (JsrProofs.jbuild_jinv W Hwf o roots g Hb)) s t Hl) as Hr.
+  pose proof (proj1 (proj2 (proj2 (JsrProofs.jbuild_jinv W Hwf o roots g Hb))) s t Hl) as Hr.
   unfold JsrProofs.RedOK in Hr. rewrite Hc in Hr. destruct Hr as [ver [vi [Hm [He [_ Hmt]]]]].
   exists ver, vi. repeat split; assumption.
 Qed.
